@@ -58,6 +58,6 @@ impl Prop for C05 {
         history::sanitize(case)
     }
     fn essential_classes() -> &'static [&'static str] {
-        &["panic-free-history", "drain-partial", "conversion", "Zs", "Bx", "Tr", "caller-code-fault-fired"]
+        &["panic-free-history", "drain-partial", "conversion", "Zs", "Bx", "Tr", "caller-code-fault-fired", "drain-leaked"]
     }
 }
